@@ -22,7 +22,7 @@ import (
 
 func TestMain(m *testing.M) {
 	time.Local = time.UTC
-	ev.Describe("0..12 incoming datagrams per discovery: valid get-device replies (all fields random, serial >= 1, some matching configured controller names, duplicates) interleaved in every order with the malformed classes {wrong length, wrong protocol id, 0x19 id, wrong function code, non-decimal nibble in the date}; broadcast address configured (any port) or default; debug output on/off; socket layer: replies sent at once or spread over up to 80% of the collection window (120 ms, now and then 1.15-1.3 s). Hook layer: the script is what the in-memory driver's Broadcast returns. Socket layer: a farm endpoint standing in for the broadcast address answers the real broadcast with the script from one socket (arrival order = send order) or from several sockets (compared as a multiset). Oracle: the expected list is the protocol decoding of the valid datagrams in order, Address = reply IP + broadcast port (60000 by default), Name from the configuration; the call never fails. Non-trivial = >= 2 valid replies with >= 1 malformed datagram in between; distinct = distinct (configuration, datagrams).",
+	ev.Describe("0..12 incoming datagrams per discovery: valid get-device replies (all fields random, serial >= 1, some matching configured controller names, duplicates) interleaved in every order with the malformed classes {wrong length, wrong protocol id, 0x19 id, wrong function code, non-decimal nibble in the date}; broadcast address configured (any port) or default; debug output on/off; socket layer: replies sent at once or spread over up to 70% of the collection window (120 ms, now and then 1.15-1.3 s). Hook layer: the script is what the in-memory driver's Broadcast returns. Socket layer: a farm endpoint standing in for the broadcast address answers the real broadcast with the script from one socket (arrival order = send order) or from several sockets (compared as a multiset). Oracle: the expected list is the protocol decoding of the valid datagrams in order, Address = reply IP + broadcast port (60000 by default), Name from the configuration; the call never fails. Non-trivial = >= 2 valid replies with >= 1 malformed datagram in between; distinct = distinct (configuration, datagrams).",
 		"replies with serial number 0 and BCD-clean but calendar-impossible dates are outside every stated domain and are not generated",
 		"socket-layer failures are re-run with the collection window x4 before they count")
 	ev.Main(m, "C11")
@@ -34,7 +34,7 @@ type discCase struct {
 	Datagrams [][]byte       `json:"datagrams"`
 	Senders   []int          `json:"senders,omitempty"` // socket layer: index of the sending socket per datagram
 	// socket layer: collection window (0 = 120 ms) and, per datagram, the time at which it is sent as a percentage of the
-	// window after the request was seen (non-decreasing, at most 80: every datagram is sent well before the timeout)
+	// window after the request was seen (non-decreasing, at most 70: every datagram is sent well before the timeout)
 	WindowMs int   `json:"window_ms,omitempty"`
 	AtPct    []int `json:"at_pct,omitempty"`
 }
@@ -256,9 +256,22 @@ func check(c discCase) *rp.Fail {
 	}
 	f := runSocket(c, 1)
 	if f != nil {
-		if f2 := runSocket(c, 4); f2 == nil {
-			ev.Inconclusive(1)
-			return nil
+		// a slow machine can delay the farm's replies past the window: only a failure that persists with every time
+		// scaled x4 and x16 (windows up to ~5 s) counts
+		for _, scale := range []int{4, 16} {
+			w := c.WindowMs
+			if w == 0 {
+				w = 120
+			}
+			if w*scale > 5500 {
+				break
+			}
+			f2 := runSocket(c, scale)
+			if f2 == nil {
+				ev.Inconclusive(1)
+				return nil
+			}
+			f = f2
 		}
 	}
 	return f
@@ -328,15 +341,15 @@ func genCase(layer string) func(t *rapid.T) discCase {
 			at := 0
 			for i := 0; i < n; i++ {
 				if rapid.IntRange(0, 2).Draw(t, "gap") == 0 {
-					at += rapid.IntRange(1, 80).Draw(t, "gap.pct")
+					at += rapid.IntRange(1, 70).Draw(t, "gap.pct")
 				}
-				if at > 80 {
-					at = 80
+				if at > 70 {
+					at = 70
 				}
 				c.AtPct = append(c.AtPct, at)
 			}
 			if rapid.Bool().Draw(t, "last.late") {
-				c.AtPct[n-1] = 80
+				c.AtPct[n-1] = 70
 			}
 		}
 		return c
